@@ -86,8 +86,6 @@ pub fn build(rw: &mut Rng, rf: &mut Rng, o: &BuildOpts, st: &mut Stats) -> Built
     Built { medium, storage, swarm, clean_records }
 }
 
-/// Reader knobs per run: capacities as small as the constructor's precondition allows, so that
-/// the BufReader refills inside records; sometimes the default constructor.
 /// A reader whose `message_max_len` is *smaller* than a length the stream declares: the stream
 /// breaks the promise the reader was configured with (hostile or corrupted LEN, or a deployment
 /// that sized the buffer for its own ECU's messages). Returns None when no record is larger than
@@ -108,6 +106,8 @@ pub fn draw_tight_capacities(r: &mut Rng, medium: &[u8], storage: bool) -> Optio
     Some((buf_cap, msg_max))
 }
 
+/// Reader knobs per run: capacities as small as the constructor's precondition allows, so that
+/// the BufReader refills inside records; sometimes the default constructor.
 pub fn draw_capacities(r: &mut Rng, medium: &[u8], storage: bool, default_pct: usize) -> (usize, usize) {
     if r.chance(default_pct, 100) {
         return (0, 0);
@@ -178,7 +178,8 @@ pub fn minimise(
     }
     // budget counted in evaluations, scaled by the size of the case (no wall clock involved)
     let size = case.medium.len() + case.script.len() + case.exec.len() + case.tasks.iter().map(|t| t.0.len() + t.1.len()).sum::<usize>();
-    let mut budget = byte_budget.min(40_000_000 / (size + 1)).max(200);
+    // (a budget below 200 is taken literally: evaluations in subprocesses are expensive)
+    let mut budget = if byte_budget < 200 { byte_budget } else { byte_budget.min(40_000_000 / (size + 1)).max(200) };
     // 1. simplest schedule first: no script at all (= full reads), then fewer entries
     let mut c = cur.clone();
     c.script.clear();
